@@ -21,7 +21,7 @@ PROP_MODULES = [
 
 CANCELLABLE = ["c_race", "c_early", "c_noarb", "c_sync", "c_sync_early", "c_complete_during_start"]
 DETACH = ["d_race", "d_detach", "d_sync"]
-CANARY = ["k_guard", "k_dtors"]
+CANARY = ["k_guard", "k_dtors", "k_move"]   # k_move: the guard is moved into a longer-lived holder
 SOR = ["s_two", "s_ext"]
 AFTER = ["c_after_start", "c_noarb_after_start"]   # A and B act only after start() returned: model cancellableafter
 RAW = ["r_race", "r_early"]   # C++20: cancellable{create_raw_sender<>(event-dispatch lambda)} = configurations c_race / c_early
@@ -32,9 +32,10 @@ def run(tier, seed, replay=None):
         # always_report_rejected: the model admits the failing histories of the two known defects, so a
         # history it does NOT admit is news even in a scenario where those monitors fire
         AtomicPart("cancellable", SCN, LIB, "cancellable", CANCELLABLE, always_report_rejected=True),
-        AtomicPart("cancellable_after_start", SCN, LIB, "cancellableafter", AFTER, quick=dict(preemptions=2, max_execs=5000)),
+        AtomicPart("cancellable_after_start", SCN, LIB, "cancellableafter", AFTER, quick=dict(preemptions=2, max_execs=5000),
+                   always_report_rejected=True),
         AtomicPart("detach_on_cancel", SCN, LIB, "detachoncancel", DETACH),
-        AtomicPart("canary", SCN, LIB, "canary", CANARY, quick=dict(preemptions=3, max_execs=4000)),
+        AtomicPart("canary", SCN, LIB, "canary", CANARY, quick=dict(preemptions=3, max_execs=4000), always_report_rejected=True),
         AtomicPart("stop_on_request", SCN, LIB, "stoponrequest", SOR),
         AtomicPart("create_raw_sender", SCN, LIB, "cancellable", RAW, std="gnu++20", always_report_rejected=True),
     ]
@@ -44,7 +45,7 @@ def run(tier, seed, replay=None):
         parts = [p for p in parts if p.name in only]
     return run_check(
         "C19", tier, seed, PROP_MODULES, parts,
-        rule="every schedule (DFS, preemption-bounded, plus random/PCT walks) of 17 scenarios on the real cancellable<>/try_complete, "
+        rule="every schedule (DFS, preemption-bounded, plus random/PCT walks) of 18 scenarios on the real cancellable<>/try_complete, "
              "detach_on_cancel, canary and stop_on_request templates under the controlled scheduler (harness nested op / child / "
              "receiver that destroys and poisons the operation state on completion, tracked heap for the detached child state); "
              "a case = one distinct observable history; non-trivial = admitted by the Lean model of the same name",
@@ -62,5 +63,5 @@ def run(tier, seed, replay=None):
                     "(`*_safe`: full property; for cancellable with completion on another thread only `*_core` holds and "
                     "`*_touch_after_free` / `*_hook_on_completed_op` are machine-checked reachability witnesses of the two "
                     "defects in stop_type::start()). Tie: trace inclusion of real executions in the model + model-independent "
-                    "monitors (completed twice/never, hook twice / on a completed op, write after destruction via 0xA5 poison, "
+                    "monitors (completed twice/never, hook twice / on a completed op / called although try_complete() had already claimed the completion (state byte peeked at the hook's first statement), ~canary returning under a held — possibly moved — guard, write after destruction via 0xA5 poison, "
                     "child state leaked/double-freed).")
